@@ -205,6 +205,30 @@ func genC01(r *rand.Rand, tier string) []Case {
 		}
 		cases = append(cases, c)
 	}
+	// tiny memstores with bursts of deletes and overwrites of the same keys: the log of one memstore generation grows
+	// far beyond any multiple of the memstore limit while the memstore does not grow; then restarts
+	nt := 6
+	if tier == "thorough" {
+		nt = 120
+	}
+	for i := 0; i < nt; i++ {
+		keys := [][]byte{[]byte("k0"), []byte("k1"), []byte("k2")}
+		c := &c01Case{Keys: keys, Opts: dbOpts{MemstoreBytes: []uint64{1, 1, 4, 8}[r.Intn(4)], Threshold: 10, MaxSize: 5 << 30, RatioPct: 100, WBuf: 4096, RBuf: 4096}}
+		for round := 0; round < 2+r.Intn(3); round++ {
+			c.Steps = append(c.Steps, dbStep{Op: "put", K: keys[r.Intn(3)], V: []byte(fmt.Sprintf("v%d", round))})
+			for j := 0; j < 40+r.Intn(80); j++ {
+				c.Steps = append(c.Steps, dbStep{Op: "del", K: keys[r.Intn(3)]})
+			}
+			c.Steps = append(c.Steps, dbStep{Op: "put", K: keys[r.Intn(3)], V: []byte(fmt.Sprintf("w%d", round))})
+			if r.Intn(2) == 0 {
+				o := c.Opts
+				c.Steps = append(c.Steps, dbStep{Op: "reopen", Opts: &o})
+			}
+		}
+		o := c.Opts
+		c.Steps = append(c.Steps, dbStep{Op: "reopen", Opts: &o})
+		cases = append(cases, c)
+	}
 	// the lineages of the compaction check (selection by two criteria across a gap, excluded oldest tables) as programs
 	for _, cc := range genC06(r, "quick") {
 		c6 := cc.(*c06Case)
